@@ -53,6 +53,9 @@ PLATS = [None, "linux", "windows", "macos", "alpine", "windows_x86", "windows_ar
          "manylinux_2_17_x86_64", "manylinux_2_28_x86_64", "manylinux_2_5_x86_64", "manylinux_2_12_x86_64", "manylinux_2_17_aarch64",
          "manylinux_2_31_aarch64", "manylinux_2_35_riscv64", "musllinux_1_1_x86_64", "musllinux_1_2_x86_64", "musllinux_1_2_aarch64", "musllinux_1_1_aarch64",
          "manylinux_2_17_armv7l", "manylinux_2_17_ppc64le"]
+# hypothetical next majors of the two Linux families: Platform.parse accepts them and compare() orders them, but the
+# tag generators never walk across a major (known finding T7, see is_known below)
+PLATS += ["manylinux_3_0_x86_64", "musllinux_2_0_x86_64"]
 IMPLS = [[None, False], ["cpython", False], ["cpython", True], ["pypy", False]]
 PY = [("cp39", "cp39"), ("cp39", "abi3"), ("cp310", "cp310"), ("cp313", "cp313t"), ("py3", "none"), ("py38", "none"),
       ("pp39", "pypy39_pp73"), ("cp38", "none"), ("py2", "none"), ("cp27", "cp27mu"), ("cp36", "abi3")]
@@ -89,6 +92,35 @@ def epoch(acc, g):
         harness.process(mod, acc, "epoch", {"a": a, "b": b, "plat": PLATS[pi], "impl": IMPLS[ii]}, "L1-epoch", isolate=False)
 
 
+_t7_os: dict = {}
+
+
+def _linux_major(name):
+    if name not in _t7_os:
+        o = Platform.parse(name).os  # aliases ("linux", "alpine") resolve to a versioned platform
+        fam = type(o).__name__
+        _t7_os[name] = (fam, o.major) if fam in ("Manylinux", "Musllinux") else None
+    return _t7_os[name]
+
+
+def t7_pair(pa, pb) -> bool:
+    """Known finding T7: two manylinux (or two musllinux) platforms with different major numbers."""
+    if not pa or not pb:
+        return False
+    a, b = _linux_major(pa), _linux_major(pb)
+    return a is not None and b is not None and a[0] == b[0] and a[1] != b[1]
+
+
+def is_known(kind, case):
+    if kind == "nest":
+        hit = t7_pair(case["older"], case["newer"])
+    elif kind == "cmp":
+        hit = t7_pair(case["a"][1], case["b"][1])
+    else:
+        hit = "plat_b" in case and t7_pair(case["plat"], case["plat_b"])
+    return "T7-linux-major-bump" if hit else None
+
+
 def tasks(tier, seed):
     groups = [(pi, ii) for pi in range(len(PLATS)) for ii in range(len(IMPLS))]
     t = [(MOD, "mono", (g,)) for g in groups]
@@ -123,6 +155,9 @@ def cmp(acc, shard, nshards):
         A = objs[i]
         for j in range(len(specs)):
             B = objs[j]
+            if harness.KNOWN_ENABLED and t7_pair(specs[i][1], specs[j][1]):
+                acc.excluded_known["T7-linux-major-bump"] += 1
+                continue
             acc.evaluations += 1
             acc.layers["L1-compare"] += 1
             bad = compare_laws(A, B, tagsets[i], tagsets[j], i == j)
@@ -161,6 +196,9 @@ def nest(acc):
     for arch in ("x86_64", "aarch64", "armv7l", "ppc64le", "s390x", "riscv64"):
         fams.append([f"manylinux_2_{m}_{arch}" for m in range(5, 45)])
         fams.append([f"musllinux_1_{m}_{arch}" for m in range(1, 6)])
+    # across a major bump of the Linux families (known finding T7)
+    fams.append(["manylinux_2_17_x86_64", "manylinux_2_40_x86_64", "manylinux_3_0_x86_64", "manylinux_3_20_x86_64"])
+    fams.append(["musllinux_1_1_x86_64", "musllinux_1_2_x86_64", "musllinux_2_0_x86_64", "musllinux_2_1_x86_64"])
     fams.append([f"macos_10_{m}_x86_64" for m in range(4, 17)] + [f"macos_{M}_{m}_x86_64" for M in range(11, 20) for m in (0, 2)])
     fams.append([f"macos_{M}_{m}_arm64" for M in range(11, 20) for m in (0, 2)])
     for fam in fams:
